@@ -1053,3 +1053,56 @@ def rule_nested_scope_effects(check, rule):
                         '*args/**kwargs (a method called on it) arrives after the forwarding calls of the main body were recorded with their star '
                         'arguments already resolved: nothing re-evaluates them', key=key,
                         witness="def f(**kwargs):\n    def h(): kwargs.pop('z')\n    h(); return inner(1, 2, **kwargs)  -> still advertises z")
+
+
+def rule_optional_container_truthiness(check, rule):
+    """C06.R7: `if x.parent:` where `parent` is "None or another instance of a class that defines __len__" asks whether the
+    parent is *non-empty*, not whether it exists.  A scope that binds no names is then treated as if there were no enclosing
+    scope at all, and the outcome of discovery depends on whether an unrelated statement happens to bind a name there.
+    The rule: in a class implementing the container protocol (__len__, or a Mapping base), an attribute that holds
+    None-or-instance (assigned from a constructor parameter defaulting to None) is never tested by truthiness."""
+    repo = check.repo
+    n = 0
+    for m in repo.modules.values():
+        for ci in m.classes.values():
+            sized = '__len__' in ci.methods or any('Mapping' in norm(b) or 'Sequence' in norm(b) or 'Set' in norm(b) for b in ci.bases)
+            init = ci.methods.get('__init__')
+            if not sized or init is None:
+                continue
+            a = init.node.args
+            defaults = dict(zip([x.arg for x in (a.posonlyargs + a.args)][::-1], a.defaults[::-1]))
+            opt = set(k for k, d in defaults.items() if isinstance(d, ast.Constant) and d.value is None)
+            iself = init.params()[0][0]
+            attrs = set()
+            for s_ in ast.walk(init.node):
+                if isinstance(s_, ast.Assign) and isinstance(s_.value, ast.Name) and s_.value.id in opt:
+                    for t in s_.targets:
+                        if isinstance(t, ast.Attribute) and isinstance(t.value, ast.Name) and t.value.id == iself:
+                            attrs.add(t.attr)
+            if not attrs:
+                continue
+            # which of those attributes hold instances of this very class? (constructed with `Cls(<something>)` somewhere in the package)
+            for meth in ci.methods.values():
+                for node in ast.walk(meth.node):
+                    tests = []
+                    if isinstance(node, (ast.If, ast.While, ast.IfExp)):
+                        tests.append(node.test)
+                    elif isinstance(node, ast.BoolOp):
+                        tests.extend(node.values)
+                    elif isinstance(node, ast.UnaryOp) and isinstance(node.op, ast.Not):
+                        tests.append(node.operand)
+                    for t in tests:
+                        if isinstance(t, ast.Attribute) and t.attr in attrs and isinstance(t.ctx, ast.Load):
+                            n += 1
+                            key = '%s|truthiness|%s' % (meth.key, norm(t))
+                            check.violation(rule, site_of(meth, t), '`%s` is tested by truthiness, but %s implements the container protocol: an '
+                                            'existing yet empty %s counts as absent' % (norm(t), ci.name, ci.name), key=key,
+                                            witness='def f(*a, **k):\n    def inner(): return (lambda: g(*a, **k))()\n    return inner()\nfalls back to the plain '
+                                                    'signature; adding `q = 1` to inner() makes discovery succeed')
+            for meth in ci.methods.values():
+                for node in ast.walk(meth.node):
+                    if isinstance(node, ast.Compare) and len(node.ops) == 1 and isinstance(node.ops[0], (ast.Is, ast.IsNot)) \
+                            and isinstance(node.left, ast.Attribute) and node.left.attr in attrs:
+                        n += 1
+                        check.holds(rule, site_of(meth, node), '`%s` tests the reference itself' % norm(node), key='%s|identity|%s' % (meth.key, norm(node)))
+    check.floor(rule, 'tests of optional container-valued attributes', n, 1)
